@@ -2,6 +2,7 @@ package main
 
 import (
 	_ "embed"
+	"go/constant"
 	"fmt"
 	"go/types"
 	"reflect"
@@ -110,7 +111,15 @@ func cloneInstr(in ssa.Instruction) ssa.Instruction {
 	return ni
 }
 
-// isNewFunc: the function (or, for a literal, the literal itself) is not part of the reference tree.
+// forceTransparent: small private helpers of the reference tree that the rules read through (the
+// rule is stated over the caller with the helper's body in place), so that neither moving code
+// into such a helper nor folding the helper back into its caller changes what the rule sees.
+var forceTransparent = map[string]string{
+	"(*am/config.Coordinator).loadFromFile": "C17.7 reads Reload as: LoadFile, store, notify",
+}
+
+// isNewFunc: the function (or, for a literal, the literal itself) is not part of the reference tree
+// (or is one of the helpers the rules read through).
 func isNewFunc(f *ssa.Function) bool {
 	if f == nil || !strings.HasPrefix(fnPkgPath(f), Mod) {
 		return false
@@ -118,10 +127,14 @@ func isNewFunc(f *ssa.Function) bool {
 	if f.Synthetic != "" && f.Origin() == nil {
 		return false
 	}
+	if _, ok := forceTransparent[fnName(f)]; ok {
+		return true
+	}
 	return !baselineFuncs[fnName(f)]
 }
 
 type inliner struct {
+	touched  map[*ssa.Function]bool
 	e        *Eng
 	newFuncs map[*ssa.Function]bool
 	recCache map[*ssa.Function]bool
@@ -559,6 +572,81 @@ func (il *inliner) inlineCall(call *ssa.Call, f *ssa.Function) {
 	rebuildReferrers(g)
 }
 
+// simplifyCFG folds branches on constants (an inlined helper called with a constant argument)
+// and drops the code that became unreachable, so that rules enumerating the call sites of a
+// function do not see dead copies.
+func simplifyCFG(g *ssa.Function) {
+	removePred := func(s, p *ssa.BasicBlock) {
+		for j, q := range s.Preds {
+			if q == p {
+				s.Preds = append(s.Preds[:j:j], s.Preds[j+1:]...)
+				for _, in := range s.Instrs {
+					phi, ok := in.(*ssa.Phi)
+					if !ok {
+						break
+					}
+					phi.Edges = append(phi.Edges[:j:j], phi.Edges[j+1:]...)
+				}
+				return
+			}
+		}
+	}
+	for round := 0; round < 8; round++ {
+		changed := false
+		for _, b := range g.Blocks {
+			if len(b.Instrs) == 0 {
+				continue
+			}
+			iff, ok := b.Instrs[len(b.Instrs)-1].(*ssa.If)
+			if !ok {
+				continue
+			}
+			v, known := evalCond(iff.Cond, pctx{})
+			if !known {
+				if k, isK := iff.Cond.(*ssa.Const); isK && k.Value != nil && k.Value.Kind() == constant.Bool {
+					v, known = constant.BoolVal(k.Value), true
+				}
+			}
+			if !known {
+				continue
+			}
+			taken, other := b.Succs[0], b.Succs[1]
+			if !v {
+				taken, other = other, taken
+			}
+			j := &ssa.Jump{}
+			setBlock(j, b)
+			b.Instrs[len(b.Instrs)-1] = j
+			b.Succs = []*ssa.BasicBlock{taken}
+			removePred(other, b)
+			changed = true
+		}
+		live := reachableBlocks(g)
+		var keep []*ssa.BasicBlock
+		for _, b := range g.Blocks {
+			if live[b] || b == g.Recover {
+				keep = append(keep, b)
+				continue
+			}
+			for _, s := range b.Succs {
+				if live[s] {
+					removePred(s, b)
+				}
+			}
+			changed = true
+		}
+		g.Blocks = keep
+		for i, b := range g.Blocks {
+			b.Index = i
+		}
+		if !changed {
+			break
+		}
+	}
+	delete(domCacheG, g)
+	rebuildReferrers(g)
+}
+
 // rebuildReferrers recomputes the referrer lists of all values of g.
 func rebuildReferrers(g *ssa.Function) {
 	clear := func(v ssa.Value) {
@@ -610,7 +698,7 @@ func rebuildReferrers(g *ssa.Function) {
 
 // inlineNewHelpers makes every function that is not in the reference tree transparent.
 func (e *Eng) inlineNewHelpers(all map[*ssa.Function]bool) {
-	il := &inliner{e: e, newFuncs: map[*ssa.Function]bool{}, recCache: map[*ssa.Function]bool{}}
+	il := &inliner{e: e, newFuncs: map[*ssa.Function]bool{}, recCache: map[*ssa.Function]bool{}, touched: map[*ssa.Function]bool{}}
 	var mod []*ssa.Function
 	for f := range all {
 		if !strings.HasPrefix(fnPkgPath(f), Mod) || len(f.Blocks) == 0 {
@@ -668,12 +756,16 @@ func (e *Eng) inlineNewHelpers(all map[*ssa.Function]bool) {
 				}
 				e.InlineLog = append(e.InlineLog, fmt.Sprintf("inlined %s into %s at %s", fnName(callee), fnName(g), e.InstrPos(site)))
 				il.inlineCall(site, callee)
+				il.touched[g] = true
 				changed = true
 			}
 		}
 		if !changed {
 			break
 		}
+	}
+	for g := range il.touched {
+		simplifyCFG(g)
 	}
 	// helpers that are now referenced nowhere are absorbed: whole-program rules do not see them
 	refd := map[*ssa.Function]bool{}
